@@ -23,18 +23,6 @@ open Grcov AList Grcov.Lcov Grcov.Rewrite Grcov.UPath Grcov.Cli
 
 namespace CliAux
 
-theorem rewritePaths_map_ok {α : Type} (cfg : Cfg) (fs : FS) (l : List α) (key : α → Lcov.Bytes × Cov)
-    (g : α → Rewrite.Rec) (habs : ∀ s, cfg.sourceDir = some s → isAbsolute s = true)
-    (h : ∀ x ∈ l, rewriteKey cfg fs (key x) = .ok (some (g x))) :
-    rewritePaths cfg fs (l.map key) = .ok (l.map g) := by
-  have hc : collect ((l.map key).map (rewriteKey cfg fs)) = .ok (l.map g) := by
-    rw [List.map_map]
-    exact collect_map_ok _ g l fun x hx => h x hx
-  unfold rewritePaths
-  cases hs : cfg.sourceDir with
-  | none => exact hc
-  | some s => simp only [habs s hs, if_true]; exact hc
-
 /-- **The second run.** If the report of a run is writable, its files are filed under distinct keys
 by the next run, and every reported path – as the key `add_results` makes of it – is rewritten to
 itself, then a run on the written report writes the same bytes. -/
